@@ -1,4 +1,6 @@
 SPECIFICATION TSpec
+CONSTANT NoneV = "None"
+CONSTANT SomeOf <- TrSome
 CONSTRAINT HighWater
 POSTCONDITION Accepted
 CHECK_DEADLOCK FALSE
